@@ -291,6 +291,8 @@ def render(m, max_size, prefer_truncation=False):
         return "err FormError", None
     except ValueError:
         return "err ValueError", None
+    except Exception as e:  # noqa: BLE001 — a non-library exception is an outcome too (and never the model's)
+        return "err " + type(e).__name__, None
     return "ok " + hx(w), w
 
 
